@@ -1434,7 +1434,6 @@ func conv(i *interpreter, t_dst, t_src types.Type, x value) value {
 			break // fail: no other conversions for string
 		}
 
-
 		// Conversions between complex numeric types?
 		if ut_src.Info()&types.IsComplex != 0 {
 			switch ut_dst.(*types.Basic).Kind() {
